@@ -12,6 +12,7 @@ import (
 	"fmt"
 	"math"
 	"os"
+	"sync/atomic"
 	"time"
 
 	"github.com/lni/dragonboat/v4"
@@ -34,6 +35,15 @@ func ctx() context.Context {
 
 var diskUsed map[uint64]bool
 
+type beat struct {
+	t    time.Time
+	seq  int
+	what string
+	ops  []interface{}
+}
+
+var heartbeat atomic.Value
+
 func main() {
 	nhx.Quiet()
 	seed := flag.Int64("seed", hx.Seed(), "PRNG seed")
@@ -44,6 +54,19 @@ func main() {
 		hx.Die("need -out")
 	}
 	run := hx.NewRun(*out)
+
+	heartbeat.Store(beat{time.Now(), -1, "start-up", nil})
+	go func() {
+		for {
+			time.Sleep(time.Second)
+			b := heartbeat.Load().(beat)
+			if time.Since(b.t) > 45*time.Second {
+				run.Violate(hx.Violation{Property: "C19", Clause: "facade_total", Signature: "facade-call-never-returns", Seq: b.seq,
+					What: "a call through the NodeHost facade has not come back for 45 s (" + b.what + "): the local call it stands for answers at once", Ops: b.ops})
+				os.Exit(3)
+			}
+		}
+	}()
 	defer run.Close()
 	// the on-disk test state machine keeps its database under the working directory
 	wd, _ := os.MkdirTemp("", "nhapi")
@@ -162,6 +185,8 @@ func main() {
 			}
 			op := map[string]interface{}{"op": "get", "sid": sid}
 			ops = append(ops, op)
+			// every call of the facade comes back (with an answer or an error): the watchdog is told what is going on
+			heartbeat.Store(beat{time.Now(), s, fmt.Sprintf("sequence %d, step %d: GetSession / Propose / Read / CloseSession for shard %d", s, q, sid), append([]interface{}{}, ops...)})
 			var ps *mr.Session
 			var err error
 			crashed := func() (c bool) {
